@@ -188,11 +188,19 @@ fn print_stmt(cfg: GenCfg) -> BoxedStrategy<Stmt> {
         3 => str_atom().prop_map(PrintItem::Expr),
     ];
     (
-        prop::collection::vec((item, prop::bool::weighted(0.3)), 0..4),
+        prop::collection::vec((item, prop::bool::weighted(0.3), prop::bool::weighted(0.3)), 0..4),
         0u32..8,
         0u32..10,
     )
         .prop_map(|(items, trail, lead)| {
+            // `PRINT "i = " I`: items may be juxtaposed when that cannot be read as one
+            // expression or one token, i.e. a string literal next to a literal or a variable
+            let plain = |p: &PrintItem| matches!(p, PrintItem::Expr(Expr::Str(_)) | PrintItem::Expr(Expr::Var(_)) | PrintItem::Expr(Expr::Num(_)));
+            let is_str = |p: &PrintItem| matches!(p, PrintItem::Expr(Expr::Str(_)));
+            let juxtaposable: Vec<bool> = (0..items.len())
+                .map(|i| i + 1 < items.len() && items[i].2 && plain(&items[i].0) && plain(&items[i + 1].0) && (is_str(&items[i].0) || is_str(&items[i + 1].0)))
+                .collect();
+            let items: Vec<(PrintItem, bool)> = items.into_iter().map(|(a, b, _)| (a, b)).collect();
             let mut v = vec![];
             if lead == 0 {
                 v.push(PrintItem::Semi);
@@ -202,7 +210,7 @@ fn print_stmt(cfg: GenCfg) -> BoxedStrategy<Stmt> {
             let n = items.len();
             for (i, (it, comma)) in items.into_iter().enumerate() {
                 v.push(it);
-                if i + 1 < n {
+                if i + 1 < n && !juxtaposable[i] {
                     v.push(if comma { PrintItem::Comma } else { PrintItem::Semi });
                 }
             }
